@@ -64,6 +64,77 @@ pub open spec fn c12(buf: Seq<char>, value: Seq<char>, vowel: bool, chandra: boo
     else { buf + value }
 }
 
+
+pub open spec fn pk_char(p: PendingKar) -> char { match p { PendingKar::I => '\u{09BF}', PendingKar::E => '\u{09C7}', PendingKar::OI => '\u{09C8}' } }
+pub open spec fn pk_vowel(p: PendingKar) -> char { match p { PendingKar::I => '\u{0987}', PendingKar::E => '\u{098F}', PendingKar::OI => '\u{0990}' } }
+pub open spec fn left_kar(c: char) -> bool { c == '\u{09BF}' || c == '\u{09C7}' || c == '\u{09C8}' }
+pub open spec fn to_pending(c: char) -> Option<PendingKar> { if c == '\u{09BF}' { Some(PendingKar::I) } else if c == '\u{09C7}' { Some(PendingKar::E) } else if c == '\u{09C8}' { Some(PendingKar::OI) } else { None } }
+pub open spec fn kar_generic(buf: Seq<char>, rmc: char, k: char, vowel: bool, chandra: bool, trad: bool) -> Seq<char> {
+    if vowel && (buf.len() == 0 || is_vowel_c(rmc) || marks_c(rmc)) { match to_vowel(k) { Some(v) => buf.push(v), None => buf } }
+    else if chandra && rmc == '\u{0981}' { buf.drop_last().push(k).push('\u{0981}') }
+    else if rmc == '\u{09CD}' { match to_vowel(k) { Some(v) => buf.drop_last().push(v), None => buf } }
+    else if trad && consonant_c(rmc) { if k == '\u{09C1}' || k == '\u{09C2}' || k == '\u{09C3}' { buf.push('\u{200C}').push(k) } else { buf.push(k) } }
+    else { buf.push(k) }
+}
+pub open spec fn step_on(buf: Seq<char>, pend: Option<PendingKar>, value: Seq<char>, vowel: bool, chandra: bool, trad: bool, old_reph: bool) -> (Seq<char>, Option<PendingKar>)
+    decreases (if pend.is_some() { 1int } else { 0int })
+{
+    let rmc = last_or_nul(buf);
+    if value == seq!['\u{09CD}', '\u{09AF}'] {
+        let b1 = if rmc == '\u{09B0}' && !(buf.len() >= 2 && buf[buf.len() - 2] == '\u{09CD}') { buf.push('\u{200D}') } else { buf };
+        if left_kar(rmc) && b1.len() > 0 { ((b1.drop_last() + value).push(b1.last()), pend) } else { (b1 + value, pend) }
+    } else if value == seq!['\u{09B0}', '\u{09CD}'] && old_reph { (reph_spec(buf), pend) }
+    else if value.len() > 0 && is_kar_c(value[0]) {
+        let k = value[0];
+        if rmc != '\u{09CD}' && left_kar(k) { (buf, to_pending(k)) }
+        else if rmc == '\u{09C7}' && (k == '\u{09BE}' || k == '\u{09CC}') { (buf.drop_last().push(if k == '\u{09BE}' { '\u{09CB}' } else { '\u{09CC}' }), pend) }
+        else if pend.is_some() {
+            let pk = pend.unwrap();
+            if rmc == '\u{09CD}' {
+                let b2 = buf.drop_last().push(pk_char(pk)).push('\u{09CD}');
+                (kar_generic(b2, '\u{09CD}', k, vowel, chandra, trad), None)
+            } else {
+                let b2 = if vowel && (buf.len() == 0 || is_vowel_c(rmc) || marks_c(rmc)) { buf.push(pk_vowel(pk)) } else { buf };
+                step_on(b2, None, value, vowel, chandra, trad, old_reph)
+            }
+        } else { (kar_generic(buf, rmc, k, vowel, chandra, trad), pend) }
+    }
+    else if value.len() > 0 && value[0] == '\u{09CD}' && rmc == '\u{09CD}' { (buf.push('\u{200C}'), pend) }
+    else if value.len() > 0 && value[0] == '\u{09D7}' && rmc == '\u{09CD}' { (buf.drop_last().push('\u{0994}'), pend) }
+    else if value.len() > 0 && value[0] == '\u{09CD}' && left_kar(rmc) {
+        if value.len() == 1 { (buf.drop_last().push('\u{09CD}'), to_pending(rmc)) } else { ((buf.drop_last() + value).push(rmc), pend) }
+    }
+    else if value.len() > 0 && rmc == '\u{09C7}' && value[0] == '\u{09D7}' { (buf.drop_last().push('\u{09CC}'), pend) }
+    else if pend.is_some() {
+        if value.len() > 0 && value.last() == '\u{09CD}' { (buf + value, pend) } else { ((buf + value).push(pk_char(pend.unwrap())), None) }
+    }
+    else { (buf + value, pend) }
+}
+
+pub open spec fn plain_consonant(c: char) -> bool { consonant_c(c) && !is_vowel_c(c) && !marks_c(c) && !is_kar_c(c) && c != '\u{09CD}' && c != '\u{09D7}' && c != '\u{0981}' }
+
+// simplest syllable shape: left-standing sign + one consonant, typewriter order (option on) vs Unicode order (option off)
+pub proof fn lemma_c14_left_kar_single_consonant(buf: Seq<char>, k: char, c: char, vowel: bool, chandra: bool, trad: bool, old_reph: bool)
+    requires left_kar(k), plain_consonant(c), last_or_nul(buf) != '\u{09CD}',
+    ensures ({
+        let s1 = step_on(buf, None, seq![k], vowel, chandra, trad, old_reph);
+        let s2 = step_on(s1.0, s1.1, seq![c], vowel, chandra, trad, old_reph);
+        let u1 = c12(buf, seq![c], vowel, chandra, trad, old_reph);
+        let u2 = c12(u1, seq![k], vowel, chandra, trad, old_reph);
+        s2 == (u2, None::<PendingKar>)
+    }),
+{
+    reveal_with_fuel(step_on, 2);
+    assert(is_kar_c(k)) by { assert(kars()[1] == '\u{09BF}' && kars()[6] == '\u{09C7}' && kars()[7] == '\u{09C8}'); }
+    assert(seq![k][0] == k && seq![c][0] == c && seq![c].last() == c);
+    assert(seq![k].len() == 1 && seq![c].len() == 1);
+    assert(!(seq![k] =~= seq!['\u{09CD}', '\u{09AF}']) && !(seq![c] =~= seq!['\u{09CD}', '\u{09AF}']));
+    assert(!(seq![k] =~= seq!['\u{09B0}', '\u{09CD}']) && !(seq![c] =~= seq!['\u{09B0}', '\u{09CD}']));
+    assert((buf + seq![c]).last() == c);
+    assert(buf + seq![c] =~= buf.push(c));
+    assert((buf + seq![c]).push(k) =~= buf.push(c).push(k));
+}
+
 pub const B_SIGN_ANJI: char = '\u{0980}';
 pub const B_CHANDRA: char = '\u{0981}';
 pub const B_ANUSHAR: char = '\u{0982}'; // BENGALI SIGN ANUSVARA
@@ -328,8 +399,10 @@ impl FixedMethod {
     /// Processes the `value` of the pressed key and updates the method's
     /// internal buffer which will be used when creating suggestion.
     fn process_key_value(&mut self, value: &str, config: &Config)
-        requires !config.fixed_kar_order
-        ensures final(self).buffer@ == c12(old(self).buffer@, value@, config.fixed_vowel, config.fixed_chandra, config.fixed_kar, config.fixed_old_reph), final(self).pending_kar == old(self).pending_kar, final(self).typed == old(self).typed
+        ensures
+            !config.fixed_kar_order ==> final(self).buffer@ == c12(old(self).buffer@, value@, config.fixed_vowel, config.fixed_chandra, config.fixed_kar, config.fixed_old_reph) && final(self).pending_kar == old(self).pending_kar,
+            config.fixed_kar_order ==> (final(self).buffer@, final(self).pending_kar) == step_on(old(self).buffer@, old(self).pending_kar, value@, config.fixed_vowel, config.fixed_chandra, config.fixed_kar, config.fixed_old_reph),
+            final(self).typed == old(self).typed
         decreases (if old(self).pending_kar.is_some() { 1int } else { 0int })
     {
 
@@ -560,7 +633,7 @@ impl FixedMethod {
     fn insert_old_style_reph(&mut self) ensures final(self).buffer@ == reph_spec(old(self).buffer@), final(self).pending_kar == old(self).pending_kar, final(self).typed == old(self).typed { unimplemented!() }
 }
 /// Is the provided `c` is a left standing Kar?
-fn is_left_standing_kar(c: char) -> bool {
+fn is_left_standing_kar(c: char) -> (r: bool) ensures r == left_kar(c) {
     c == B_I_KAR || c == B_E_KAR || c == B_OI_KAR
 }
 
